@@ -126,6 +126,9 @@ RET_RANGE_BY_NAME = {
 }
 
 
+_IN_PROGRESS = []
+
+
 class Analysis:
     def __init__(self, prog, max_depth=5):
         self.p = prog
@@ -228,6 +231,10 @@ class Analysis:
         # projections
         fields = [e for e in pl[1:] if isinstance(e, str) and e.startswith(".")]
         lty = f.local_ty(l)
+        if len(pl) >= 3 and isinstance(pl[1], str) and pl[1].startswith("@") and pl[1].split(":")[-1] in ("Continue", "Some", "Ok") and depth < 30:
+            v = self._eval_payload(f, pl, pos, env, depth, stack)
+            if v is not None:
+                return v
         if l == 1 and "{closure" in f.key and fields and depth < 30:
             v = self._eval_upvar(f, pl, depth, stack)
             if v is not None:
@@ -243,6 +250,98 @@ class Analysis:
                 if inv is not None:
                     return inv
         return None
+
+    def _eval_payload(self, f, pl, pos, env, depth, stack):
+        """`let x = helper(..)?` with a workspace helper returning Result<int, _> / Option<int>: the
+        interval of the Ok / Some payload, evaluated in the helper at its `Ok(v)` sites with the
+        call's argument intervals."""
+        ds = f.defs(pl[0])
+        if len(ds) > 1 and all(d["kind"] == "call" and (callee_of(d["term"]) or {}).get("name") == "branch" for d in ds):
+            # the `?` continuation was cloned per return path of a spliced helper: join the feasible ones
+            feas = (self.__dict__.get("feasible") or {}).get(f.key)
+            out = None
+            for d in ds:
+                if feas is not None and d["bb"] not in feas:
+                    continue
+                v = self._payload_of_branch(f, d["term"], pos, env, depth, stack)
+                if v is None:
+                    if feas is None and not f.can_reach(0, [d["bb"]]):
+                        continue
+                    # a clone on an Err path carries no Ok payload
+                    continue
+                out = v if out is None else join(out, v)
+            return out
+        if len(ds) != 1 or ds[0]["kind"] != "call":
+            return None
+        return self._payload_of_branch(f, ds[0]["term"], pos, env, depth, stack)
+
+    def _payload_of_branch(self, f, t, pos, env, depth, stack):
+        c = callee_of(t)
+        if c and c.get("name") == "branch" and t["a"] and op_local(t["a"][0]) is not None:
+            src = None
+            has_agg = False
+            # locals the Result value is copied from (all definitions: the return block of a spliced
+            # helper is cloned per path, so the carrier has several copies)
+            chain, todo = set(), [op_local(t["a"][0])]
+            while todo and len(chain) < 40:
+                x = todo.pop()
+                if x in chain:
+                    continue
+                chain.add(x)
+                for d in f.defs(x):
+                    if d["kind"] == "assign" and d["rv"][0] == "use" and op_place(d["rv"][1]) and len(op_place(d["rv"][1])) == 1:
+                        todo.append(op_local(d["rv"][1]))
+            for x in chain:
+                for d in f.defs(x):
+                    if d["kind"] == "call" and (callee_of(d["term"]) or {}).get("name") != "from_residual":
+                        src = d
+                    if d["kind"] == "assign" and d["rv"][0] == "agg" and d["rv"][1].get("variant") in ("Ok", "Some"):
+                        has_agg = True
+            if src is None or has_agg:
+                # spliced helper: the Result is built by aggregates on the helper's return paths
+                out, n = None, 0
+                for x in chain:
+                    for d in f.defs(x):
+                        if d["kind"] == "assign" and d["rv"][0] == "agg" and d["rv"][1].get("variant") in ("Ok", "Some") and d["rv"][2]:
+                            feas = (self.__dict__.get("feasible") or {}).get(f.key)
+                            if feas is not None and d["bb"] not in feas:
+                                continue
+                            v = self.eval_op(f, d["rv"][2][0], (d["bb"], d.get("si", 0)), env, depth + 1, stack)
+                            if v is None:
+                                return None
+                            out = v if out is None else join(out, v)
+                            n += 1
+                return out if n else None
+            t = src["term"]
+            c = callee_of(t)
+        if not c or c["krate"] in ("core", "alloc", "std"):
+            return None
+        targets = self.p.call_targets(c)
+        if len(targets) != 1:
+            return None
+        g = self.p.funcs[targets[0]]
+        if not g.blocks or len(g.blocks) > 80 or (f.key, g.key, "payload") in (stack or frozenset()):
+            return None
+        cenv = {}
+        for i, a in enumerate(t["a"]):
+            v = self.eval_op(f, a, pos, env, depth + 1, stack)
+            if v is not None:
+                cenv[i + 1] = v
+        out = None
+        n = 0
+        for e in g.exits():
+            if e["kind"] in ("ok", "some") and e.get("si") is not None:
+                st = g.blocks[e["bb"]]["s"][e["si"]]
+                if st["rv"][0] != "agg" or not st["rv"][2]:
+                    return None
+                v = self.eval_op(g, st["rv"][2][0], (e["bb"], e["si"]), cenv, depth + 1, (stack or frozenset()) | {(f.key, g.key, "payload")})
+                if v is None:
+                    return None
+                out = v if out is None else join(out, v)
+                n += 1
+            elif e["kind"] in ("use", "other") or e["kind"].startswith("call:"):
+                return None
+        return out if n else None
 
     def _eval_upvar(self, f, pl, depth, stack):
         """value of a captured variable read inside a closure: evaluated in the parent function at the
@@ -396,7 +495,7 @@ class Analysis:
         cache = self.__dict__.setdefault("_ef_cache", {})
         if key in cache:
             return cache[key]
-        cache[key] = []  # recursion guard
+        cache[key] = _IN_PROGRESS  # recursion guard
         facts = []
 
         def is_root(op):
@@ -532,18 +631,213 @@ class Analysis:
                     work.append(t)
         return state
 
+    def _has_bool_switches(self, f):
+        """does f branch on a boolean that summarises several outcomes (more than one definition,
+        directly or behind copies / negations)?"""
+        c = self.__dict__.setdefault("_hbs", {})
+        if f.key not in c:
+            def multi(l, depth=0):
+                ds = f.defs(l)
+                if len(ds) > 1:
+                    return True
+                if len(ds) == 1 and depth < 4:
+                    d = ds[0]
+                    if d["kind"] == "call":
+                        return (callee_of(d["term"]) or {}).get("name") == "contains"
+                    rv = d.get("rv") or []
+                    if d["kind"] == "assign" and rv and rv[0] == "use" and op_place(rv[1]) and len(op_place(rv[1])) == 1:
+                        return multi(op_local(rv[1]), depth + 1)
+                    if d["kind"] == "assign" and rv and rv[0] == "un" and op_local(rv[2]) is not None:
+                        return multi(op_local(rv[2]), depth + 1)
+                return False
+            c[f.key] = any(b["t"]["k"] == "switch" and not b.get("cleanup") and op_local(b["t"]["d"]) is not None and
+                           f.local_ty(op_local(b["t"]["d"])) == "bool" and multi(op_local(b["t"]["d"]))
+                           for b in f.blocks)
+        return c[f.key]
+
+    def _bool_switch_facts(self, f, root, st, env, depth, stack):
+        """facts about `root` on the edges of switches over boolean locals that are not themselves a
+        comparison result: the hull, over the definitions of the boolean that can produce the edge's
+        truth value, of what is known about root where that definition sits."""
+        def is_root(op):
+            l = op_local(op)
+            pl = op_place(op)
+            return l is not None and pl is not None and len(pl) == 1 and self._root_of(f, l) == root
+
+        def through_ref(op):
+            """`&x` temporaries: the operand read through one shared reference."""
+            l = op_local(op)
+            if l is None:
+                return op
+            for _ in range(4):
+                ds = f.defs(l)
+                if len(ds) == 1 and ds[0]["kind"] == "assign" and ds[0]["rv"][0] == "ref":
+                    pl = ds[0]["rv"][2]
+                    if len(pl) == 1:
+                        return ["cp", pl]
+                    if len(pl) == 2 and pl[1] == "*":       # reborrow `&*r`
+                        l = pl[0]
+                        continue
+                if len(ds) == 1 and ds[0]["kind"] == "assign" and ds[0]["rv"][0] == "use" and op_place(ds[0]["rv"][1]) and len(op_place(ds[0]["rv"][1])) == 1:
+                    l = op_local(ds[0]["rv"][1])
+                    continue
+                break
+            return op
+
+        def hull(a, b):
+            if a is None:
+                return b
+            if b is None:
+                return a
+            return (min(a[0], b[0]), max(a[1], b[1]))
+
+        memo = {}
+
+        def val(b, truth, dep):
+            """interval of root when boolean local b has value `truth`; (1, 0) = impossible."""
+            if dep > 8:
+                return None
+            k = (b, truth)
+            if k in memo:
+                return memo[k]
+            memo[k] = None
+            out = (1, 0)
+            unknown = False
+            for d in f.defs(b):
+                here = st.get(d["bb"])
+                if here is None:
+                    # the definition lies outside the region the flow covers (e.g. before the root
+                    # value exists): nothing can be said through this boolean
+                    unknown = True
+                    continue
+                contrib = here
+                if d["kind"] == "assign":
+                    rv = d["rv"]
+                    if rv[0] == "use" and rv[1][0] == "k":
+                        v = str(rv[1][1].get("v"))
+                        bv = v in ("1", "true")
+                        if bv != truth:
+                            continue
+                    elif rv[0] == "use" and op_place(rv[1]) and len(op_place(rv[1])) == 1 and f.local_ty(op_local(rv[1])) == "bool":
+                        sub = val(op_local(rv[1]), truth, dep + 1)
+                        contrib = meet(here, sub) if sub is not None else here
+                    elif rv[0] == "un" and rv[1] == "Not" and op_local(rv[2]) is not None:
+                        sub = val(op_local(rv[2]), not truth, dep + 1)
+                        contrib = meet(here, sub) if sub is not None else here
+                    elif rv[0] == "bin" and rv[1] in CMP_NEG:
+                        for mine, other, swapped in ((rv[2], rv[3], False), (rv[3], rv[2], True)):
+                            if is_root(mine) and not (other[0] != "k" and is_root(other)):
+                                oiv = self.eval_op(f, other, (d["bb"], d.get("si", 0)), env, depth + 1, stack)
+                                rel = rv[1] if truth else CMP_NEG[rv[1]]
+                                if swapped:
+                                    rel = CMP_SWAP[rel]
+                                contrib = refine(here, rel, oiv)
+                                break
+                elif d["kind"] == "call":
+                    t = d["term"]
+                    c = callee_of(t)
+                    if c and c.get("name") == "is_power_of_two" and t["a"] and is_root(t["a"][0]) and truth:
+                        contrib = refine(refine(here, "Ge", (1, 1)), "Le", (1 << 63, 1 << 63))
+                    if c and c.get("name") == "contains" and len(t["a"]) == 2 and "Range" in (c.get("rfull") or c["full"]):
+                        x = through_ref(t["a"][1])
+                        r = through_ref(t["a"][0])
+                        if is_root(x) and truth:
+                            rng = self._range_bounds(f, r, (d["bb"], f.INF - 1), env, depth, stack)
+                            if rng:
+                                contrib = meet(here, rng)
+                if contrib is not None and contrib[0] <= contrib[1]:
+                    out = hull(out if out[0] <= out[1] else None, contrib)
+            if unknown:
+                out = None
+            memo[k] = out
+            return out
+
+        facts = []
+        for bi, b in enumerate(f.blocks):
+            t = b["t"]
+            if b.get("cleanup") or t["k"] != "switch" or op_local(t["d"]) is None or len(op_place(t["d"])) != 1:
+                continue
+            bl = op_local(t["d"])
+            if f.local_ty(bl) != "bool":
+                continue
+            ds = f.defs(bl)
+            # plain comparison temporaries are already covered by the guards
+            if len(ds) == 1 and ds[0]["kind"] == "assign" and ds[0]["rv"][0] == "bin":
+                continue
+            for truth in (True, False):
+                iv = val(bl, truth, 0)
+                if iv is None:
+                    continue
+                edges = [(bi, tg, lab) for tg, lab in f.succ(bi) if (lab != "0") == truth]
+                if not edges:
+                    continue
+                if iv[0] > iv[1]:
+                    facts.append((edges, "Ge", (1, 1)))
+                    facts.append((edges, "Le", (0, 0)))
+                else:
+                    facts.append((edges, "Ge", (iv[0], iv[0])))
+                    facts.append((edges, "Le", (iv[1], iv[1])))
+        return facts
+
+    def _range_bounds(self, f, op, pos, env, depth, stack):
+        """[lo, hi] of a `lo..=hi` value (RangeInclusive::new(lo, hi))."""
+        l = op_local(op)
+        if l is None:
+            return None
+        for x in f.copy_chain(l):
+            for d in f.defs(x):
+                if d["kind"] == "assign" and d["rv"][0] == "use" and d["rv"][1][0] == "k" and "promoted" in d["rv"][1][1]:
+                    # `&(LO..=HI)` with constant bounds is a promoted constant: read its little body
+                    k = d["rv"][1][1]
+                    owner = self.p.funcs.get(k.get("uneval_def")) or f
+                    for pr in owner.raw.get("promoted") or []:
+                        if str(pr["idx"]) != str(k["promoted"]):
+                            continue
+                        for b in pr["mir"]["blocks"]:
+                            t = b["t"]
+                            c = callee_of(t) if t["k"] == "call" else None
+                            if c and c.get("name") == "new" and "RangeInclusive" in (c.get("rfull") or c["full"]) and len(t["a"]) == 2:
+                                lo, hi = op_const(t["a"][0]), op_const(t["a"][1])
+                                if lo and hi and "v" in lo and "v" in hi:
+                                    return (int(lo["v"]), int(hi["v"]))
+                if d["kind"] == "call":
+                    c = callee_of(d["term"])
+                    if c and c.get("name") == "new" and "RangeInclusive" in (c.get("rfull") or c["full"]) and len(d["term"]["a"]) == 2:
+                        lo = self.eval_op(f, d["term"]["a"][0], (d["bb"], f.INF - 1), env, depth + 1, stack)
+                        hi = self.eval_op(f, d["term"]["a"][1], (d["bb"], f.INF - 1), env, depth + 1, stack)
+                        if lo and hi:
+                            return (lo[0], hi[1])
+                if d["kind"] == "assign" and d["rv"][0] == "agg" and "RangeInclusive" in str(d["rv"][1].get("adt", "")):
+                    ops = d["rv"][2]
+                    lo = self.eval_op(f, ops[0], (d["bb"], d.get("si", 0)), env, depth + 1, stack)
+                    hi = self.eval_op(f, ops[1], (d["bb"], d.get("si", 0)), env, depth + 1, stack)
+                    if lo and hi:
+                        return (lo[0], hi[1])
+        return None
+
     def _refine_by_guards(self, f, l, pos, iv, env, depth, stack):
         if iv is None:
             return iv
         root = self._root_of(f, l)
         if root is not None:
             facts = self._edge_facts(f, root, env, depth, stack)
-            if facts:
+            if facts is _IN_PROGRESS:
+                return iv       # inside the computation of these very facts: nothing to add, nothing to cache
+            if facts or self._has_bool_switches(f):
                 key = (f.key, root, iv, id(env) if env is not None else 0)
                 cache = self.__dict__.setdefault("_flow_cache", {})
                 st = cache.get(key)
                 if st is None:
                     st = self._flow(f, root, iv, facts)
+                    # validation summarised in booleans (`let ok = lo <= x && x <= hi; .. if !(ok && ..)`):
+                    # a branch on such a boolean tells what held where it was computed
+                    prev = None
+                    for _ in range(4):
+                        extra = self._bool_switch_facts(f, root, st, env, depth, stack)
+                        if not extra or extra == prev:
+                            break
+                        prev = extra
+                        st = self._flow(f, root, iv, facts + extra)
                     cache[key] = st
                 r = st.get(pos[0])
                 if r is not None:
@@ -785,6 +1079,35 @@ class Analysis:
                     if a0 is not None and a0[0] >= 1:
                         r = (0, ab - 1)
                 return r
+            if name == "contains" and len(t["a"]) == 2 and "RangeInclusive" in (c.get("rfull") or c["full"]):
+                # (LO..=HI).contains(&x) on decided values
+                def deref(op):
+                    l = op_local(op)
+                    for _ in range(4):
+                        ds = f.defs(l) if l is not None else []
+                        if len(ds) == 1 and ds[0]["kind"] == "assign" and ds[0]["rv"][0] == "ref":
+                            pl = ds[0]["rv"][2]
+                            if len(pl) == 1:
+                                return ["cp", pl]
+                            if len(pl) == 2 and pl[1] == "*":
+                                l = pl[0]
+                                continue
+                        if len(ds) == 1 and ds[0]["kind"] == "assign" and ds[0]["rv"][0] == "use" and op_place(ds[0]["rv"][1]) and len(op_place(ds[0]["rv"][1])) == 1:
+                            l = op_local(ds[0]["rv"][1])
+                            continue
+                        break
+                    return None
+                xr, rr = deref(t["a"][1]), deref(t["a"][0])
+                if xr is not None:
+                    xv = self.eval_op(f, xr, pos, env, depth, stack)
+                    rng = self._range_bounds(f, rr if rr is not None else t["a"][0], pos, env, depth, stack) or \
+                        self._range_bounds(f, t["a"][0], pos, env, depth, stack)
+                    if xv is not None and rng is not None:
+                        if rng[0] <= xv[0] and xv[1] <= rng[1]:
+                            return (1, 1)
+                        if xv[1] < rng[0] or xv[0] > rng[1]:
+                            return (0, 0)
+                return (0, 1)
             if name == "is_power_of_two" and t["a"]:
                 a0 = self.eval_op(f, t["a"][0], pos, env, depth, stack)
                 if a0 is not None and a0[0] == a0[1]:
